@@ -305,6 +305,7 @@ func c13(c *Ctx) {
 	entries = append(entries, av1Setup(c)...)
 	boundsFor(c, "C13", entries)
 	r.Infof("CTR.lenprefix: %d length-prefix/data pair(s) recognised and reached", len(c.lenPairsSeen))
+	r.Infof("CTR.wclosed: %d path(s) that close a packet with the W field checked", c.wClosedSeen)
 }
 
 // blocksWithCallees: the blocks of fn, of its closures and of the functions of the same package it
